@@ -83,7 +83,8 @@ RegApply(x, c) ==
 
 \* ---- a priced built-in function as a register holding "its" schedule k.
 \* The drivers use schedules  base_k = 10^5 * k,  perByte_k = k  (all 22 entries derived from k), and know for every
-\* execution its base multiplier c.m (1, or the number of transfers) and its priced byte count c.n (0 < c.n < 10^4).
+\* execution its base multiplier c.m (1, or the number of transfers) and its priced byte count c.n (0 <= c.n < 10^4;
+\* 0 for the functions whose price is the base cost alone).
 MaxK == 9
 Price(kb, kp, m, n) == m * 100000 * kb + n * kp
 Decodes(charge, m, n) == {k \in 1..MaxK : charge = Price(k, k, m, n)}
